@@ -16,6 +16,7 @@ from vt.props import _wire
 from vt.props._recv import InlineExecutor, Lab, make_broker
 
 ID = "C11"
+CROSSCHECK = 10  # thorough tier: obligations per case re-decided by the cvc5 binary
 LEVEL = "other"
 TECHNIQUE = "symbolic execution (z3 Int counters, all label encodings) of one retry step through the real receiver+middleware+kicker, inductive lemma on the attempt count, plus bounded end-to-end histories"
 EXPLANATION = (
